@@ -62,13 +62,34 @@ func randIncludeCase(rng *rand.Rand, seed int64) dCase {
 	for k := 1 + rng.Intn(5); k > 0; k-- {
 		c.Calls = append(c.Calls, [2]string{[]string{"t1", "t2"}[rng.Intn(2)], []string{"x", "y", "u"}[rng.Intn(3)]})
 	}
+	if rng.Intn(3) == 0 && d.Kind != "null" {
+		// a document that came over the wire with inclusions of its own: Include is called on what
+		// UnmarshalDocument returned
+		c.Var.Wire = true
+		used := map[string]bool{}
+		for _, r := range c.Doc.Primary {
+			used[r.Type+"/"+r.ID] = true
+		}
+		for _, k := range [][2]string{{"t2", "u"}, {"t1", "u"}, {"t2", "y"}} {
+			if !used[k[0]+"/"+k[1]] && rng.Intn(2) == 0 {
+				c.Doc.Included = append(c.Doc.Included, randDocRes(rng, k[0], k[1]))
+			}
+		}
+	}
 	return c
 }
 
 func runIncludeCase(c dCase) []iEvent {
 	var evs []iEvent
 	w := newDocWorld(c.Var, c.Seed)
-	doc, _, _ := w.build(c.Doc)
+	doc, url, _ := w.build(c.Doc)
+	if c.Var.Wire {
+		url.Params.Fields = map[string][]string{} // everything travels
+		payload, err := jsonapi.MarshalDocument(doc, url)
+		must(err)
+		doc, err = jsonapi.UnmarshalDocument(payload, w.schema)
+		must(err)
+	}
 	state := func() iState {
 		st := iState{Primary: [][2]string{}, Included: [][2]string{}}
 		switch x := doc.Data.(type) {
